@@ -1,4 +1,5 @@
 import Cdecao.Proofs.NodeEng2
+import Cdecao.Proofs.SpecExec
 /-! # C01 — every reported assignment satisfies all hard course-assignment constraints
 
 Model: `N2.runNodeS` (caobab.rs `run_bab_node` with `H2.run` = hungarian.rs inside) as the node
@@ -24,5 +25,25 @@ theorem C01_node (I : Inst) (R : RoomFns) (nd : Node) (hI : InstOK I) (hnd : Nod
     ∃ mm : Nat → Nat, al = (List.range I.P).map (assign I nd mm) ∧ G.HardOK I (assign I nd mm) := by
   obtain ⟨mm, h1, h2⟩ := N2.C01_node I R nd hI hnd al sc h
   exact ⟨mm.get, h1, h2⟩
+
+/-- C01 in the form the check evaluates: the premise is the decidable validity predicate `validb`
+    (exactly the quantifier of the property: indices in range, `num_min ≤ num_max`, each participant
+    instructs at most one course and is listed once, no course twice in a choice list,
+    `P · maxPenalty < 50000`, some participant has choices); the conclusion is the executable
+    decision procedure `hardOKb` that the driver runs on every assignment the real code returns. -/
+theorem C01_valid (I : Inst) (R : RoomFns) (hv : validb I = true) (top T : Nat) :
+    letI := solverOf I R
+    ∀ c : Eng3.Cfg Node (List (Option Nat)),
+      Eng3.Reach rootNode top T c → ∀ al, c.best = some al →
+      al.length = I.P ∧ ∃ a : Nat → Option Nat, al = (List.range I.P).map a ∧ G.hardOKb I a = true := by
+  letI := solverOf I R
+  intro c hr al hal
+  obtain ⟨h1, a, h2, h3⟩ := C01_engine I R (validb_sound I hv).1.toInstOK top T c hr al hal
+  exact ⟨h1, a, h2, (G.hardOKb_iff I a).2 h3⟩
+
+/-- non-vacuity: a concrete instance (two courses, one with an instructor and a minimum, room list)
+    satisfies the premise -/
+example : validb { cs := [⟨1, 2, false, [0]⟩, ⟨0, 3, true, []⟩], ps := [⟨[]⟩, ⟨[⟨0, 0⟩, ⟨1, 5⟩]⟩, ⟨[⟨1, 0⟩]⟩],
+                   rooms := some [3, 2] } = true := by decide
 
 end Props
